@@ -348,8 +348,28 @@ theorem ProofD.wellFormed_iff (pk : PublicKey) (p : ProofD) : p.wellFormed pk = 
     (p.aResponses.get 0).isSome ∧
     (∀ kv ∈ p.aResponses, kv.2.isSome ∧ 0 ≤ kv.1 ∧ kv.1 < pk.r.length) ∧
     (∀ kv ∈ p.aDisclosed, kv.2.isSome ∧ 0 ≤ kv.1 ∧ kv.1 < pk.r.length ∧ p.aResponses.has kv.1 = false) ∧
-    (∀ kv ∈ p.rangeProofs.getD [], p.aResponses.has kv.1 = true ∧ ∀ rp ∈ kv.2, rp.isSome) := by
+    (∀ kv ∈ p.rangeProofs.getD [], p.aResponses.has kv.1 = true ∧ ∀ rp ∈ kv.2, rp.isSome) ∧
+    (∀ kv ∈ p.aDisclosed, ∀ a, kv.2 = some a → ¬ (a < 0 ∧ bitLen a > pk.params.Lm)) := by
   simp [ProofD.wellFormed, and_assoc]
+  intro _ _ _ _ _ _
+  constructor
+  · rintro ⟨hD, hR⟩
+    refine ⟨fun a b hab => ?_, hR, fun a b hab x hx hneg => ?_⟩
+    · obtain ⟨h1, h2, h3, _, h5⟩ := hD a b hab
+      exact ⟨h1, h2, h3, h5⟩
+    · have h4 := (hD a b hab).2.2.2.1
+      subst hx
+      simpa [hneg] using h4
+  · rintro ⟨hD, hR, hN⟩
+    refine ⟨fun a b hab => ?_, hR⟩
+    obtain ⟨h1, h2, h3, h5⟩ := hD a b hab
+    refine ⟨h1, h2, h3, ?_, h5⟩
+    cases b with
+    | none => rfl
+    | some x =>
+      by_cases hx : x < 0
+      · simpa [hx] using hN a _ hab x rfl hx
+      · simp [hx]
 
 theorem ProofD.verifyWithChallenge_isOk (o : SigOracle) (kid : String) (pk : PublicKey) (p : ProofD)
     (i c' : Int) : GoM.IsOk (p.verifyWithChallenge o kid pk i c') := by
@@ -628,6 +648,7 @@ def cexD : ProofD :=
 
 theorem cexD_wellFormed : cexD.wellFormed cexPk = true := by
   simp [ProofD.wellFormed, cexD, cexPk, IntMap.get, IntMap.has, List.lookup]
+  decide
 
 theorem cexPk_wellFormed : cexPk.WellFormed := by
   refine ⟨by decide, by decide, by decide, ?_⟩
@@ -1229,7 +1250,7 @@ theorem ProofD.challengeContribution_isOk (o : SigOracle) (kid : String) (pk : P
   by_cases hw : p.wellFormed pk = true
   · simp only [hw, Bool.not_true, Bool.false_eq_true, if_false]
     have hw' := (ProofD.wellFormed_iff pk p).mp hw
-    obtain ⟨⟨hc, ha, he, hv⟩, _, hA, hD, hR⟩ := hw'
+    obtain ⟨⟨hc, ha, he, hv⟩, _, hA, hD, hR, _⟩ := hw'
     have hA' : ∀ kv ∈ p.aResponses, kv.2.isSome := fun kv hkv => (hA kv hkv).1
     apply GoE.isOk_bind (GoE.isOk_ofGoMOption (ProofD.reconstructZ_isOk pk p hw (hs hw))); intro z _
     apply GoE.isOk_bind (GoE.isOk_liftM (deref_isOk _ ha)); intro a _
@@ -1580,7 +1601,7 @@ theorem ProofD.accept_rangeproofs_lookup {o : SigOracle} {kid : String} {pk : Pu
   obtain ⟨contrib, p', hc, _⟩ := ProofD.verifyWith_ok_true h
   obtain ⟨hw, z, a, c, _, _, _, l1, p1, hstep, rc, rps', hrc, _, _⟩ := ProofD.challengeContribution_ok_some hc
   have hw' := (ProofD.wellFormed_iff pk p).mp hw
-  obtain ⟨_, _, hA, _, hR⟩ := hw'
+  obtain ⟨_, _, hA, _, hR, _⟩ := hw'
   rw [hrps] at hR
   simp only [Option.getD_some] at hR
   have hhas := (hR _ (lookup_mem hl)).1
